@@ -72,7 +72,7 @@ def main(tier="quick", all_props=None):
         props = [p for p in sorted(all_props)
                  if os.path.exists(os.path.join(HERE, "props",
                                                 all_props[p] + ".py"))]
-    n = int(os.environ.get("SELFTEST_N", "8" if tier == "quick" else "64"))
+    n = int(os.environ.get("SELFTEST_N", "64" if tier == "quick" else "400"))
     bad = 0
     for pid in props:
         cnt, mism = compare(pid, n)
